@@ -457,6 +457,40 @@ def tightness(chk: Check, seed: int, reps: int):
 
 
 # --------------------------------------------------------------------------- run
+def silent_at_scale(chk: Check, calls: int):
+    """SilentAtZero where it costs something to break: "never emits a spike for an input of zero intensity" over ~1.7e7
+    Bernoulli draws per call (a comparison `u <= p` instead of `u < p` lets the draw u = 0.0, probability 2^-24 per
+    float32 draw, spike at p = 0).  Every shipped encoder class, offline and online, fixed generator seeds."""
+    from inferno import neural
+    x = torch.zeros(1, 65536)
+    x[0, ::4097] = 0.5                      # a few live elements: the train must not be silent altogether
+    dead = x[0] == 0
+    n = 0
+    for cname, make in (("HomogeneousPoissonApproxEncoder", lambda g: neural.HomogeneousPoissonApproxEncoder(256, 1.0, 200.0, generator=g)),
+                        ("HomogeneousPoissonEncoder", lambda g: neural.HomogeneousPoissonEncoder(64, 1.0, 200.0, generator=g)),
+                        ("PoissonIntervalEncoder", lambda g: neural.PoissonIntervalEncoder(64, 1.0, 200.0, generator=g))):
+        for k in range(calls if cname == "HomogeneousPoissonApproxEncoder" else 2):
+            for online in (False, True):
+                g = torch.Generator().manual_seed(k)
+                try:
+                    enc = make(g)
+                    out = enc(x, online=online)
+                    res = torch.stack(list(out)) if online else out
+                except Exception as ex:
+                    chk.violation({"clause": "Raised", "site": "silent-at-scale", "encoder": cname, "online": online,
+                                   "exc": type(ex).__name__}, {"seed": k, "error": repr(ex)})
+                    break
+                n += int(res.numel())
+                spurious = int(res[..., dead].sum())
+                if spurious or not bool(res.any()):
+                    chk.violation({"clause": "SilentAtZero" if spurious else "SilentAltogether", "site": "silent-at-scale",
+                                   "encoder": cname, "online": online},
+                                  {"seed": k, "spikes_of_zero_intensity_elements": spurious, "elements": 65536, "steps": int(res.shape[0])})
+                    break
+    chk.evaluations += 1
+    chk.note(f"silent at zero, at scale: {n:.3g} draws of zero-intensity elements, every encoder class, offline and online")
+
+
 def run(tier: str, seed: int) -> int:
     chk = Check(PID, tier, seed)
     rng = random.Random(seed)
@@ -501,6 +535,7 @@ def run(tier: str, seed: int) -> int:
     chk.extra["reproducibility_reruns"] = sum(1 for t in traces for e in t["ev"] if e["op"]["a"] == "restore_gen")
     canaries(chk)
     tightness(chk, seed, 12 if tier == "quick" else 80)
+    silent_at_scale(chk, 6 if tier == "quick" else 24)
     return chk.finish()
 
 
